@@ -6,6 +6,8 @@ rebalances with quote moves in between. Uses the session hooks for recording.
 """
 import random
 
+import numpy as np
+
 import pandas as pd
 
 from qsmon import brokerwl as bw
@@ -63,7 +65,7 @@ def gen_case(rng):
             keys = []
         w = {}
         for a in keys:
-            x = rng.choice([0.0, 1.0, 0.5, round(rng.uniform(0, 2), 3)])
+            x = rng.choice([0.0, 1.0, 0.5, round(rng.uniform(0, 2), 3), 0, 1, 1, 2])      # whole-number weights arrive as ints too
             if not long_only and rng.random() < 0.5:
                 x = -x
             w[a] = x
@@ -151,6 +153,9 @@ def run_case(case, acc, report_prop='C09'):
             if configured is None:
                 uni.assets = list(st['universe'])
             alpha.w = dict(st['weights'])
+            if i % 3 == 2:
+                # ... or as numpy integers (weights computed with numpy: ranks, signs, counts)
+                alpha.w = {a_: (np.int64(x_) if isinstance(x_, int) else x_) for a_, x_ in alpha.w.items()}
             n_before = len(tr.pcm)
             try:
                 if qts is not None:
